@@ -363,3 +363,9 @@ def gap(n, pl):
 @native
 def sum_lengths(files):
     return sum(f["length"] for f in files)
+
+
+@native
+def data_at(paths, i):
+    with open(paths[i], "rb") as fh:
+        return fh.read()
